@@ -148,7 +148,8 @@ func VerifC02Switch() {
 func VerifC02Attrs() {
 	s := symString("s", symParam("N"))
 	c, d, e := symBool("c"), symBool("d"), symBool("e")
-	m := templ.Attributes{"data-k": s, "on": e}
+	k1, k2 := symBool("k1"), symBool("k2")
+	m := templ.Attributes{"data-k": s, "kv": templ.KV(k1, k2), "on": e}
 	want := "<input type=\"text\" value=\"" + esc(s) + "\""
 	if c {
 		want += " disabled"
@@ -159,6 +160,9 @@ func VerifC02Attrs() {
 		want += " class=\"y\""
 	}
 	want += " data-k=\"" + esc(s) + "\""
+	if k1 && k2 {
+		want += " kv"
+	}
 	if e {
 		want += " on"
 	}
@@ -275,4 +279,24 @@ func VerifC02Whitespace() {
 	pat = append(pat, lit(r), opt, lit("</p>"))
 	symCover("ws")
 	checkPat(c.mk(s, t, one), "whitespace "+c.name, pat...)
+}
+
+func VerifC02Handlers() {
+	on := symBool("on")
+	msg := symString("msg", symParam("N"))
+	cs, bye := logEvt(msg), byeEvt(msg)
+	cls := boxed("1px")
+	// the scripts of both branches are defined in front of the element, whichever is taken
+	want := "<style type=\"text/css\">" + string(cls.(templ.ComponentCSSClass).Class) + "</style>" +
+		"<script>" + cs.Function + bye.Function + "</script><button "
+	if on {
+		want += "onclick=\"" + cs.Call
+	} else {
+		want += "onmouseover=\"" + bye.Call
+	}
+	want += "\" class=\"" + cls.ClassName() + " plain\">b</button>"
+	// second use in the same render: the definition is not repeated, the call is
+	tail := "<i onclick=\"" + cs.Call + "\">again</i>"
+	symCover("handlers")
+	checkPat(Handlers(on, msg), "script and css hoisting", lit(want), opt, lit(tail))
 }
